@@ -61,6 +61,7 @@ type Obs struct {
 	Answers   map[string]string `json:"answers"` // probe -> "status body" or "ERR"
 	Events    []string          `json:"events,omitempty"`
 	Files     []string          `json:"files,omitempty"` // after a hammer step: the log files in Dir
+	ExtraFDs  []string          `json:"extra_fds,omitempty"` // listening sockets held by more than one descriptor
 }
 
 // Result is the child's report.
@@ -118,6 +119,47 @@ func (l fileLoader) Load(serverType string) (casket.Input, error) {
 }
 
 // listening returns the ports of the LISTEN sockets owned by this process.
+// extraFDs lists listening TCP sockets of this process that are held by more than one file descriptor
+// ("port x n").  A running instance holds each of its listening sockets once; a duplicate that stays is
+// a descriptor somebody took (a reload duplicates the running sockets) and did not give back.  Closing is
+// partly asynchronous, so the census is repeated for up to 200 ms until it is clean.
+func extraFDs(skip func(port string) bool) []string {
+	var out []string
+	for try := 0; try < 10; try++ {
+		out = nil
+		count := map[string]int{}
+		fds, _ := os.ReadDir("/proc/self/fd")
+		for _, fd := range fds {
+			if l, err := os.Readlink("/proc/self/fd/" + fd.Name()); err == nil && strings.HasPrefix(l, "socket:[") {
+				count[strings.TrimSuffix(strings.TrimPrefix(l, "socket:["), "]")]++
+			}
+		}
+		for _, f := range []string{"/proc/self/net/tcp", "/proc/self/net/tcp6"} {
+			b, err := os.ReadFile(f)
+			if err != nil {
+				continue
+			}
+			for i, line := range strings.Split(string(b), "\n") {
+				fs := strings.Fields(line)
+				if i == 0 || len(fs) < 10 || fs[3] != "0A" || count[fs[9]] < 2 {
+					continue
+				}
+				if j := strings.LastIndex(fs[1], ":"); j >= 0 {
+					if p, err := strconv.ParseInt(fs[1][j+1:], 16, 32); err == nil && !skip(strconv.Itoa(int(p))) {
+						out = append(out, fmt.Sprintf("%d x %d", p, count[fs[9]]))
+					}
+				}
+			}
+		}
+		if len(out) == 0 {
+			return nil
+		}
+		time.Sleep(20 * time.Millisecond)
+	}
+	sort.Strings(out)
+	return out
+}
+
 func listening() []string {
 	inodes := map[string]bool{}
 	fds, _ := os.ReadDir("/proc/self/fd")
@@ -444,6 +486,7 @@ func run(scriptPath string) int {
 			}
 		}
 		o.Listening = mine
+		o.ExtraFDs = extraFDs(func(p string) bool { return occupied[p] != nil })
 		o.Hooks = len(casket.ListPlugins()["event_hooks"])
 		o.Instances = len(casket.Instances())
 		o.Answers = map[string]string{}
